@@ -98,3 +98,65 @@ func HarnessC02_Intersect() {
 	vfAssert(common, "C02 every successful quorum write shares a replica with every successful quorum read")
 	vfCover("c02-intersect")
 }
+
+func init() { vfRegisterBubble("HarnessC02_Zones", HarnessC02_Zones) }
+
+// HarnessC02_Zones: one instance per zone, 1..5 zones (fewer, equal and more
+// than the replication factor), any subset of instances unhealthy. The read
+// side is taken at the level of the replication set's own tolerance: a
+// successful zone-aware read has answers from every instance of all but
+// MaxUnavailableZones zones (what HarnessC02_Intersect establishes for the real
+// tracker on smaller rings); both answer and acknowledgement vectors are
+// symbolic.
+func HarnessC02_Zones() {
+	nz := 1 + vfChoice("zones", vfParam("zones", 5))
+	rf := 1 + vfChoice("rf", vfParam("rf", 5))
+	zoneAware := vfChoice("za", 2) == 1
+	now := vfEpoch + 1000
+	vfSetNow(now)
+	d := NewDesc()
+	for i := 0; i < nz; i++ {
+		id := vfIDs[i]
+		ts := vfI64("ts_" + id)
+		vfAssume(vfAnd(ts >= now-1000, ts <= now))
+		zone := ""
+		if zoneAware {
+			zone = string(rune('a' + i))
+		}
+		d.Ingesters[id] = InstanceDesc{Id: id, Addr: id, Zone: zone, State: ACTIVE, Timestamp: ts,
+			RegisteredTimestamp: 7, Tokens: []uint32{uint32(1000 * (i + 1))}}
+	}
+	r := vfMkRing(d, rf, zoneAware, time.Minute)
+	key := vfU32("key")
+	ws, werr := r.Get(key, Write, nil, nil, nil)
+	rs, rerr := r.GetReplicationSetForOperation(Read)
+	if werr != nil || rerr != nil {
+		vfCover("c02-zones-lookup-fails")
+		return
+	}
+	acked := map[string]bool{}
+	nAck := 0
+	for i := range ws.Instances {
+		a := vfBool("ack_" + ws.Instances[i].Id)
+		acked[ws.Instances[i].Id] = a
+		nAck += vfIteInt(a, 1, 0)
+	}
+	vfAssume(nAck >= len(ws.Instances)-ws.MaxErrors)
+	nAns := 0
+	common := false
+	for i := range rs.Instances {
+		ans := vfBool("answer_" + rs.Instances[i].Id)
+		nAns += vfIteInt(ans, 1, 0)
+		if a, ok := acked[rs.Instances[i].Id]; ok {
+			common = vfOr(common, vfAnd(a, ans))
+		}
+	}
+	if rs.ZoneAwarenessEnabled {
+		// one instance per zone: zones that answered completely = instances that answered
+		vfAssume(nAns >= len(rs.Instances)-rs.MaxUnavailableZones)
+	} else {
+		vfAssume(nAns >= len(rs.Instances)-rs.MaxErrors)
+	}
+	vfAssert(common, "C02 every successful quorum write shares a replica with every successful quorum read (zones fewer, equal or more than the replication factor)")
+	vfCover("c02-zones-intersect")
+}
